@@ -110,6 +110,20 @@ def main():
                         order = case["request_first"] + [i for i in range(len(consumers)) if i not in case["request_first"]]
                         for i in order:
                             ids[i] = consumers[i].__xpm__.identifier.all.hex()
+                        if case.get("poke"):
+                            # C14: attempts to assign a parameter of every submitted task (must be rejected) interleaved with
+                            # identifier / job directory requests (must not move)
+                            pokes = []
+                            for t in [c for c in created if getattr(c.__xpm__, "job", None) is not None]:
+                                before = (t.__xpm__.identifier.all.hex(), str(t.__xpm__.job.path))
+                                try:
+                                    t.k = 4242
+                                    rejected = False
+                                except Exception:
+                                    rejected = True
+                                after = (t.__xpm__.identifier.all.hex(), str(t.__xpm__.job.path))
+                                pokes.append({"cls": type(t).__name__, "rejected": rejected, "before": before, "after": after})
+                            rec["pokes"] = pokes
                         rec["ids"] = ids
                         rec["out_ids"] = [o.__xpm__.identifier.all.hex() for o in outs]
                         rec["producers_of"] = [None if o.__xpm__.task is None else created.index(o.__xpm__.task) for o in outs]
